@@ -49,6 +49,7 @@ def eval_case(case):
             realrun.git(pr.root, "add", "-A")
             realrun.git(pr.root, "commit", "-q", "-m", "c0")
         hist = []
+        pr.cond(["run", rng.choice(["//:e1", "//a:e2", "//:d1"])], timeout=120)  # at least one recorded version
         for i in range(case["nruns"]):
             if case["git"] and rng.random() < 0.5:
                 if rng.random() < 0.5:
@@ -165,7 +166,7 @@ def main(tier, n=None):
     rep = common.Report(PROP, tier, "exploration", RULE)
     rep.assumptions = ["don't-care: mtimes, ownership, group/other permission bits; where the archive file itself is stored", "compared per version: file type, owner rwx bits, symlink targets, bytes"]
     rng = common.rng_for("c11", common.base_seed())
-    total = n or (60 if tier == "quick" else 1200)
+    total = n or (200 if tier == "quick" else 3000)
     cases = []
     for i in range(total):
         cases.append({"seed": rng.randrange(1 << 30), "nruns": rng.randint(1, 4), "task": rng.choice([None, None, "//:g", "//:dd", "//a/b:e3", "//:k", "//c-d:e4", "//:d1", "//a:c1"]),
